@@ -187,7 +187,7 @@ pub fn run(ctx: &Ctx) -> Report {
     rep.part("library client under schedule search and single faults", st, serde_json::json!({"base_jobs": n}));
     // short counts: what is reported must be what was transferred
     {
-        let w = Worker::new(43, &ctx.pool.bins);
+        let w = Worker::new(143, &ctx.pool.bins);
         let mut errs = vec![];
         let mut jobs = vec![];
         for d in drivers() {
@@ -213,16 +213,24 @@ pub fn run(ctx: &Ctx) -> Report {
                     let mut s = Scenario::new(&format!("api-absent-{}-{}-{}", tn, d, upd), tree, &["copy", d, "2", "4096", upd, "dst", "src"]);
                     s.prog = Prog::ApiProbe;
                     let s = Arc::new(s);
-                    for (call, en) in [("ioctl:FIEMAP", libc::EOPNOTSUPP), ("copy_file_range", libc::ENOSYS), ("copy_file_range", libc::EXDEV)] {
+                    for (call, en) in [("ioctl:FIEMAP", libc::EOPNOTSUPP), ("copy_file_range", libc::ENOSYS), ("copy_file_range", libc::EXDEV), ("lseek:DATA", libc::EINVAL), ("lseek:HOLE", libc::EINVAL)] {
                         let mut sp = RunSpec::base(Policy::P0);
                         sp.faults.push(Fault { call: call.into(), thread: None, nth: None, path_contains: None, action: Action::Errno(en) });
                         jobs.push((s.clone(), sp, 0));
+                    }
+                    // one hole-seeking call refused, the later ones answered
+                    for call in ["lseek:DATA", "lseek:HOLE"] {
+                        for nth in 1..=3 {
+                            let mut sp = RunSpec::base(Policy::P0);
+                            sp.faults.push(Fault { call: call.into(), thread: None, nth: Some(nth), path_contains: None, action: Action::Errno(libc::EINVAL) });
+                            jobs.push((s.clone(), sp, 0));
+                        }
                     }
                 }
             }
         }
         let st = explore(&ctx.pool, jobs, j);
-        rep.part("every legal short count at every data-moving call, small-kernel runs, FIEMAP / copy_file_range unsupported", st, serde_json::json!({}));
+        rep.part("every legal short count at every data-moving call, small-kernel runs, FIEMAP / copy_file_range / SEEK_DATA / SEEK_HOLE unsupported", st, serde_json::json!({}));
         rep.machinery_errors.extend(errs);
     }
     rep.assumptions = vec!["updates are ordered against data-moving calls through marker calls emitted by the client at delivery time (the trace is a total order)".into()];
